@@ -170,18 +170,23 @@ theorem merge_hoisted_sound (H : Host) (n : Nat) (ps : List String) (cenv : Env)
       exact mergeHoistedFwd_eq items src rest)
   exact (callN_congr H n ps cenv args heq hx).symm
 
-/-! ## (c) `hoistVars` -/
+/-! ## (c) `hoistVars`
+
+`hoistBodyG kw` is the model of `hoistVars`; `kw` says whether `isShadowed` knows that the head of a `while` loop
+belongs to the scope around the loop (`Gen.JsHoistFacts.isShadowedKnowsWhile`, read from the source on every run:
+`false` for the code without docs/C01D-fix-1.patch); `hoistBody = hoistBodyG isShadowedKnowsWhile`. -/
 
 /-- **hoist_names** (full): `hoistVars` keeps the set of `var` names of the function -/
-theorem hoist_names (body : List DS) (y : String) : y ∈ varNamesL (hoistBody body) ↔ y ∈ varNamesL body :=
-  Verif.Proofs.JsDecl.hoist_names body y
+theorem hoist_names (kw : Bool) (body : List DS) (y : String) :
+    y ∈ varNamesL (hoistBodyG kw body) ↔ y ∈ varNamesL body :=
+  Verif.Proofs.JsDecl.hoist_names kw body y
 
-theorem hoist_listEq_fields (body : List DS) :
-    (∀ H K env, execL H K (hoistBody body) env = execL H K body env) ∧
-    lexDeclsL (hoistBody body) = lexDeclsL body ∧ fnDeclsL (hoistBody body) = fnDeclsL body ∧
-    fragL (hoistBody body) = fragL body := by
-  unfold hoistBody
-  cases plan (collectL [] body) with
+theorem hoist_listEq_fields (kw : Bool) (body : List DS) :
+    (∀ H K env, execL H K (hoistBodyG kw body) env = execL H K body env) ∧
+    lexDeclsL (hoistBodyG kw body) = lexDeclsL body ∧ fnDeclsL (hoistBodyG kw body) = fnDeclsL body ∧
+    fragL (hoistBodyG kw body) = fragL body := by
+  unfold hoistBodyG
+  cases plan (collectL kw [] body) with
   | none => exact ⟨fun _ _ _ => rfl, rfl, rfl, rfl⟩
   | some p =>
     have h := applyL_dyn p body 0
@@ -190,24 +195,24 @@ theorem hoist_listEq_fields (body : List DS) :
 /-- **hoist_sound** (full, function level): calling a function whose body went through `hoistVars` — `var`
     declarations turned into assignments, their names moved to the best declaration, in whatever block, loop head or
     catch block that one stands — has the same outcome as calling the original, for every host, arguments, state. -/
-theorem hoist_sound (H : Host) (n : Nat) (ps : List String) (cenv : Env) (args : List Val) (body : List DS) :
-    callN H (n + 1) (.clo ps (hoistBody body) cenv) args = callN H (n + 1) (.clo ps body cenv) args := by
-  obtain ⟨hd, hl, hf, _⟩ := hoist_listEq_fields body
-  have hv : ∀ x, (varNamesL (hoistBody body)).contains x = (varNamesL body).contains x := by
+theorem hoist_sound (kw : Bool) (H : Host) (n : Nat) (ps : List String) (cenv : Env) (args : List Val) (body : List DS) :
+    callN H (n + 1) (.clo ps (hoistBodyG kw body) cenv) args = callN H (n + 1) (.clo ps body cenv) args := by
+  obtain ⟨hd, hl, hf, _⟩ := hoist_listEq_fields kw body
+  have hv : ∀ x, (varNamesL (hoistBodyG kw body)).contains x = (varNamesL body).contains x := by
     intro x
     rw [Bool.eq_iff_iff]
-    simp [hoist_names body x]
-  have hs : ∀ self, fnScope ps args (hoistBody body) self = fnScope ps args body self := by
+    simp [hoist_names kw body x]
+  have hs : ∀ self, fnScope ps args (hoistBodyG kw body) self = fnScope ps args body self := by
     intro self
     funext x
     simp only [fnScope, hf, hl, hv x]
-  have hd' : execL H (callN H n) (hoistBody body) = execL H (callN H n) body := funext (hd H _)
+  have hd' : execL H (callN H n) (hoistBodyG kw body) = execL H (callN H n) body := funext (hd H _)
   funext s
   rw [callN_clo, callN_clo, hs, hd']
 
-/-- `hoist_sound` for the program: full strength -/
-def hoist_sound_prog_full : Prop :=
-  ∀ (H : Host) (d : Nat) (s0 : St) (prog : List DS), runProg H d (hoistBody prog) s0 = runProg H d prog s0
+/-- `hoist_sound` for the program (where early errors are judged): full strength -/
+def hoist_sound_prog_full (kw : Bool) : Prop :=
+  ∀ (H : Host) (d : Nat) (s0 : St) (prog : List DS), runProg H d (hoistBodyG kw prog) s0 = runProg H d prog s0
 
 /-- `{let a=1;while(g(a)){}}var a;g(a)` -/
 def d1Prog : List DS :=
@@ -215,33 +220,36 @@ def d1Prog : List DS :=
            .forS true .empty (some (.call (.var "g" {}) [.var "a" {}])) none []],
    .decl .var [.var "a" {}], .expr (.call (.var "g" {}) [.var "a" {}])]
 
-/-- **hoist_sound_counterexample** (K-C01D-1): `{let a=1;while(g(a)){}}var a;g(a)` → `{let a=1;for(var a;g(a););}g(a)`,
-    a SyntaxError: the empty declaration that the parser makes for the `while` belongs to the block's scope, and
-    `isShadowed` skips exactly that scope. -/
-theorem hoist_sound_counterexample : ¬ hoist_sound_prog_full := by
+/-- **hoist_sound_counterexample** (K-C01D-1, the code without the repair): `{let a=1;while(g(a)){}}var a;g(a)` →
+    `{let a=1;for(var a;g(a););}g(a)`, a SyntaxError: the empty declaration that the parser makes for the `while`
+    belongs to the block's scope, and `isShadowed` skips exactly that scope. -/
+theorem hoist_sound_counterexample : ¬ hoist_sound_prog_full false := by
   intro h
-  have h1 : earlyBody [] (hoistBody d1Prog) = true := by decide
+  have h1 : earlyBody [] (hoistBodyG false d1Prog) = true := by decide
   have h2 : earlyBody [] d1Prog = false := by decide
-  have h3 : fragL (hoistBody d1Prog) = true := by decide
+  have h3 : fragL (hoistBodyG false d1Prog) = true := by decide
   have h4 : fragL d1Prog = true := by decide
   have := h cxHost 1 cxState d1Prog
   simp only [runProg, h1, h2, h3, h4] at this
   cases this
 
+/-- with the repair the example keeps its (absent) early error -/
+example : earlyBody [] (hoistBodyG true d1Prog) = false := by decide
+
 /-- **hoist_sound_partial**: for the program the only thing that can go wrong is a new early error (a hoisted name
     landing in a block that declares it with let / const); `isShadowed` is there to prevent it -/
-theorem hoist_sound_partial (H : Host) (d : Nat) (s0 : St) (prog : List DS)
-    (he : earlyBody [] (hoistBody prog) = earlyBody [] prog) :
-    runProg H d (hoistBody prog) s0 = runProg H d prog s0 := by
-  obtain ⟨hd, hl, hf, hfr⟩ := hoist_listEq_fields prog
-  have hv : ∀ x, (varNamesL (hoistBody prog)).contains x = (varNamesL prog).contains x := by
+theorem hoist_sound_partial (kw : Bool) (H : Host) (d : Nat) (s0 : St) (prog : List DS)
+    (he : earlyBody [] (hoistBodyG kw prog) = earlyBody [] prog) :
+    runProg H d (hoistBodyG kw prog) s0 = runProg H d prog s0 := by
+  obtain ⟨hd, hl, hf, hfr⟩ := hoist_listEq_fields kw prog
+  have hv : ∀ x, (varNamesL (hoistBodyG kw prog)).contains x = (varNamesL prog).contains x := by
     intro x
     rw [Bool.eq_iff_iff]
-    simp [hoist_names prog x]
-  have hg : globalInst (hoistBody prog) s0.heap.length = globalInst prog s0.heap.length := by
+    simp [hoist_names kw prog x]
+  have hg : globalInst (hoistBodyG kw prog) s0.heap.length = globalInst prog s0.heap.length := by
     funext g x
     simp only [globalInst, hf, hv x]
-  have hd' : execL H (callN H d) (hoistBody prog) = execL H (callN H d) prog := funext (hd H _)
+  have hd' : execL H (callN H d) (hoistBodyG kw prog) = execL H (callN H d) prog := funext (hd H _)
   unfold runProg
   simp only [hfr, he, hg, hl, hd']
 
@@ -249,8 +257,9 @@ theorem hoist_sound_partial (H : Host) (d : Nat) (s0 : St) (prog : List DS)
 def hoistEx : List DS :=
   [.expr (.call (.var "g" {}) []), .decl .var [.assign "a" {} (.num 1)], .expr (.call (.var "g" {}) []),
    .decl .var [.assign "b" {} (.num 2)], .expr (.call (.var "g" {}) [.var "a" {}, .var "b" {}])]
-example : earlyBody [] (hoistBody hoistEx) = earlyBody [] hoistEx := by decide
-example : (hoistBody hoistEx).any (fun s => match s with | .decl .hoisted _ => true | _ => false) = true := by decide
+example : earlyBody [] (hoistBodyG false hoistEx) = earlyBody [] hoistEx := by decide
+example : (hoistBodyG false hoistEx).any (fun s => match s with | .decl .hoisted _ => true | _ => false) = true := by
+  decide
 
 /-! ## (d) the head of a `for` -/
 
